@@ -336,12 +336,13 @@ fn run(ctx: &mut Ctx, si: usize, case: u64) {
         }
         1 => {
             let total = if small { 64 + ctx.rng.usize_below(64) } else { 64 + ctx.rng.usize_below(4000) };
-            let var = ctx.rng.below(7);
+            let var = ctx.rng.below(8);
             let v = adversarial::ver_overlap(&mut ctx.rng, enc, total, var);
             match var {
                 0 | 1 => ctx.count("symver:quadratic-shape"),
                 2 => ctx.count("symver:next=0"),
                 5 => ctx.count("symver:next-near-2^32"),
+                6 => ctx.count("symver:small-declared-counts"),
                 _ => {}
             }
             if v.need_count >= 0xffff {
